@@ -284,7 +284,7 @@ func genSvcValue(t *rapid.T, label string) string {
 		toks = append(toks, "ipv6hint=2001:db8::1")
 	}
 	if rapid.IntRange(0, 3).Draw(t, label+"_unk") == 0 {
-		toks = append(toks, fmt.Sprintf("key%d=%s", rapid.IntRange(8, 59999).Draw(t, label+"_unkk"), rapid.SampledFrom([]string{"abc", `"x=y"`, "ech", `"ech=fake"`, "a%20b", `"100%s"`, `\\065bc`, "%d%v%%"}).Draw(t, label+"_unkv")))
+		toks = append(toks, fmt.Sprintf("key%d=%s", rapid.IntRange(8, 59999).Draw(t, label+"_unkk"), rapid.SampledFrom([]string{"abc", `"x=y"`, "ech", `"ech=fake"`, "a%20b", `"100%s"`, `\\065bc`, "%d%v%%", `"C:\\"`, `"a\"b"`, `"\\"`}).Draw(t, label+"_unkv")))
 	}
 	if rapid.IntRange(0, 7).Draw(t, label+"_dohpath") == 0 {
 		// RFC 9461 dohpath: a URI template, percent-encoded octets and braces included
